@@ -61,6 +61,27 @@ Print Assumptions C03_reject_outside_stays_inside.
 Theorem C03_out_of_cube_rule_is_rejection : Gen.Kernel.out_of_cube_proposals_are_rejected = true.
 Proof. reflexivity. Qed.
 
+(** periodic / reflective coordinates. The symmetric (RWM) step keeps a symmetric density after wrapping or folding
+    (sum over the pre-images, any symmetric truncation), so the plain Metropolis ratio stays exact there; the tpCN runner
+    does not wrap or fold at all (Gen.Kernel.tpcn_rejects_on_every_coordinate): it rejects out-of-cube proposals on every
+    coordinate, which is the case of C03_reject_outside_detailed_balance. Wrapping a proposal that is reversible w.r.t. a
+    non-periodic reference is refuted by a three-residue example. *)
+Theorem C03_rwm_wrap_symmetric : forall (phi : R -> R), (forall t, phi (- t) = phi t) ->
+  forall K u u', q_wrap phi K u u' = q_wrap phi K u' u.
+Proof. exact wrap_symmetric. Qed.
+Print Assumptions C03_rwm_wrap_symmetric.
+Theorem C03_rwm_fold_symmetric : forall (phi : R -> R), (forall t, phi (- t) = phi t) ->
+  forall K u u', q_fold phi K u u' = q_fold phi K u' u.
+Proof. exact fold_symmetric. Qed.
+Print Assumptions C03_rwm_fold_symmetric.
+Theorem C03_boundary_rules_of_the_code :
+  Gen.Kernel.tpcn_rejects_on_every_coordinate = true /\ Gen.Kernel.rwm_wraps_and_folds_designated_coordinates = true.
+Proof. split; reflexivity. Qed.
+Example C03_wrapped_tpcn_refuted :
+  (forall x y, m_ex x * q_ex x y = m_ex y * q_ex y x)
+  /\ m_ex 0 * q_ex_wrapped 0 2 = / 2 /\ m_ex 2 * q_ex_wrapped 2 0 = / 32 /\ / 2 <> / 32.
+Proof. split; [exact q_ex_reversible|exact wrapped_contracting_proposal_not_reversible]. Qed.
+
 (** the pinned tree's rule, refuted: redrawing an out-of-cube proposal until it is inside is in detailed balance with
     pi(x) * P(step from x lands inside), NOT with pi (repaired in /repo; kept as the reason the rule matters). *)
 Theorem C03_redraw_balances_tilted_target : forall X (pi : X -> R) (phi : X -> X -> R) (Pin : X -> R),
